@@ -1150,6 +1150,9 @@ class Interp(object):
         rec(0, fr)
 
     def e_ListComp(self, e, frame):
+        spec = self.loop_specs.get((frame.qualname, 'listcomp@%d' % e.lineno))
+        if spec is not None:
+            return spec.run_comp(self, e, frame)
         out = []
         self._comp(e.generators, frame, lambda fr: out.append(self.eval(e.elt, fr)))
         return out
